@@ -507,13 +507,14 @@ func HandleSetUser(cc *hotline.ClientConn, t *hotline.Transaction) (res []hotlin
 			newT := hotline.NewTransaction(hotline.TranUserAccess, c.ID, hotline.NewField(hotline.FieldUserAccess, newAccessLvl))
 			res = append(res, newT)
 
+			// Apply the new access before deriving the admin flag from it.
+			c.Account.Access = account.Access
+
 			if c.Authorize(hotline.AccessDisconUser) {
 				c.Flags.Set(hotline.UserFlagAdmin, 1)
 			} else {
 				c.Flags.Set(hotline.UserFlagAdmin, 0)
 			}
-
-			c.Account.Access = account.Access
 
 			cc.SendAll(
 				hotline.TranNotifyChangeUser,
